@@ -20,7 +20,12 @@ def extra(rows):
 
 def run(tier, seed):
     args = ["-heal", "-nobyz", "-faultfree", 5, "-suffix", 16] + (["-runs", 40, "-steps", 120] if tier == "quick" else ["-runs", 1500, "-steps", 300])
-    return protolib.run_property(PROP, tier, seed, args, RULE, extra_cov=extra, assumptions=ASSUME)
+    # the scenario library, one batch per scenario: a leader that is cut off in every other view of a stretch it leads and then
+    # falls silent (its certificates are known to the others only from its late proposals); a lagging leader-to-be
+    k = 12 if tier == "quick" else 300
+    more = [["-heal", "-nobyz", "-suffix", 16, "-only", "late-leader", "-runs", k, "-steps", 200],
+            ["-heal", "-nobyz", "-suffix", 16, "-only", "laggard", "-runs", k, "-steps", 150]]
+    return protolib.run_property(PROP, tier, seed, args, RULE, extra_cov=extra, assumptions=ASSUME, more=more)
 
 
 def replay(path, seed):
